@@ -36,6 +36,17 @@ def check(ctx):
                   "a client that is not reconnectable must never reopen on its own, and a reconnectable one must wait its "
                   "reconnect timeout between attempts (and restart the timer, otherwise it reopens on every service call and "
                   "never completes a connection)")
+    ctx.rule("T4-lifecycle", "receive()/send() of the client transports only classify errors and flag cutoff: they never close/open the socket")
+    for cn in ("Client", "ClientTls"):
+        for meth in ("receive", "send"):
+            fm = ctx.cls("tcp.clienting", cn).own_method(meth)
+            W = FuncView(ctx, fm)
+            life = [c for n, c in W.attr_calls(("close", "shutclose", "reopen", "open", "shutdown"))
+                    if isinstance(c.func.value, ast.Name) and c.func.value.id == "self"]
+            ctx.check(not life, "T4-lifecycle", fm, "%s.%s makes no socket lifecycle call%s" % (cn, meth, (": " + src(life[0])) if life else ""),
+                      "Client.accept() reopens whenever the socket object is gone (`if not self.cs: self.reopen()`) and the service "
+                      "loops attempt a connect whenever not connected: a transport that closes its socket on a cut off therefore "
+                      "reopens and reconnects on the next service call even when it is not reconnectable")
     cs = ctx.cls("tcp.clienting", "Client").own_method("serviceConnect")
     V = FuncView(ctx, cs)
     nt = V.tests(lambda t: src(t) == "not self.connected")
